@@ -84,8 +84,16 @@ use std::collections::HashMap;
 use std::fs::File;
 use std::io::{Read, Seek, SeekFrom};
 use std::path::{Path, PathBuf};
+#[cfg(not(zipora_verif))]
 use std::sync::atomic::{AtomicU32, Ordering};
+#[cfg(zipora_verif)]
+use crate::verif::sync::atomic::AtomicU32;
+#[cfg(zipora_verif)]
+use std::sync::atomic::Ordering;
+#[cfg(not(zipora_verif))]
 use std::sync::RwLock;
+#[cfg(zipora_verif)]
+use crate::verif::sync::RwLock;
 
 /// Standard page size for cache operations (4KB)
 pub const PAGE_SIZE: usize = 4096;
@@ -328,6 +336,8 @@ impl FileManager {
         }
 
         // Seek to the desired position
+        #[cfg(zipora_verif)]
+        crate::verif::point_here(crate::verif::Op::Other, 0);
         entry.file.seek(SeekFrom::Start(offset))
             .map_err(|e| ZiporaError::invalid_data(format!(
                 "Failed to seek to offset {} in file {:?}: {}", offset, entry.path, e
@@ -338,6 +348,8 @@ impl FileManager {
         let mut bytes_read = 0;
         
         while bytes_read < bytes_to_read {
+            #[cfg(zipora_verif)]
+            crate::verif::point_here(crate::verif::Op::Other, 0);
             match entry.file.read(&mut buffer[bytes_read..bytes_to_read]) {
                 Ok(0) => break, // EOF reached
                 Ok(n) => bytes_read += n,
